@@ -65,9 +65,18 @@ pub fn replay(id: &str, path: &str) -> i32 {
       return 2;
     },
   };
-  println!("replay of {} (key: {})", id, j.str_of("key"));
-  println!("{}", j.get("detail").map(|d| d.to_pretty()).unwrap_or_default());
-  2
+  let key = j.str_of("key");
+  let tier = if j.str_of("tier") == "thorough" { "thorough" } else { "quick" };
+  println!("replay of {} key: {}", id, key);
+  println!("recorded case: {}", j.get("detail").and_then(|d| d.get("case")).map(|d| d.to_string()).unwrap_or_default());
+  // single-case re-execution where the module supports it, twice, identical observations required
+  if let Some(code) = cpusweep::replay_case(id, &j) {
+    return code;
+  }
+  // otherwise re-run the deterministic enumeration of the tier that found it and report whether
+  // this key reproduces (exit 1) or not (exit 0)
+  std::env::set_var("GBMC_REPLAY_KEY", &key);
+  run(id, tier)
 }
 
 pub fn worker(id: &str, args: &[String]) -> i32 {
